@@ -102,7 +102,7 @@ def run(ctx):
                         "only `%s` is tested: a short count above zero passes as progress" % src(zero[0])[:60])
             else:
                 ctx.inconclusive("R1.stdio", key, P.where(call), what, "no comparison of the result recognised")
-    ctx.floor("C18 fwrite call sites", nfw, 4)
+    ctx.floor("C18 fwrite call sites", nfw, 1)
 
     # ---- close: flush before OK
     close = P.fn("carquet_writer_close", FW)
